@@ -67,6 +67,7 @@ QJsonObject generate()
     }
     c["text"] = strToJson(text);
     c["boundary"] = boundary;
+    if (chance(20)) { StrOpts po; po.maxLen = 12; c["pre"] = strToJson(genString(po, &used)); } // already formatted by an earlier formatter
     int cr = pick(0, 9);
     if (cr == 0) c["cat"] = QJsonValue(QJsonValue::Null);
     else if (cr == 1) c["cat"] = "";
@@ -242,11 +243,21 @@ std::string run(const QJsonObject &c)
     LogMessage lm(type, ctx, text);
     for (auto av : c["attrs"].toArray())
         lm.setAttribute(strFromJson(av.toArray()[0]), toVariant(av.toArray()[1].toObject()));
+    if (c.contains("pre")) { lm.setFormattedMessage(strFromJson(c["pre"])); cls("message_already_formatted_by_an_earlier_formatter", true); }
 
     SentryFormatter f(strFromJson(c["sdkName"]), strFromJson(c["sdkVersion"]));
     std::string id1, id2;
     std::string d = checkEvent(f.format(lm), c, lm, &id1);
     if (!d.empty()) return d;
+    {
+        // a formatter object that lives for the whole run (as in a configured pipeline) sees messages with different attribute sets
+        // one after the other: every event carries the attributes of ITS message
+        static SentryFormatter longLived(QStringLiteral("verif.sdk"), QStringLiteral("1"));
+        std::string id0;
+        d = checkEvent(longLived.format(lm), c, lm, &id0);
+        if (!d.empty()) return "formatter object used for many messages: " + d;
+        cls("long_lived_formatter_object", true);
+    }
     d = checkEvent(f.format(lm), c, lm, &id2); // the same message again: a fresh id
     if (!d.empty()) return d;
     if (id1 == id2) return "two events got the same event_id " + id1;
